@@ -37,7 +37,7 @@ impl<'a> GraphemeCluster<'a> {
         Self {
             graphemes: UnicodeSegmentation::graphemes(s, true)
                 .flat_map(|it| {
-                    let contains_backslash = it.chars().count() == 2 && it.contains('\\');
+                    let contains_backslash = it.contains('\\');
                     let contains_combining_mark_or_unassigned_chars = it.chars().any(|c| {
                         let category = GeneralCategory::of(c);
                         category.is_mark() || category.is_other()
